@@ -12,6 +12,7 @@
 //! (P-Code semantics, gamma / inv of intervals, segment lookup), not from the code under test.
 mod c01;
 mod c02;
+mod c07;
 mod c19;
 mod util;
 
@@ -73,6 +74,8 @@ fn search(twin: &str, case: Option<&str>, seed: u64) -> Option<Value> {
         c01::search(twin, case, seed)
     } else if twin.starts_with("c02.") || twin.starts_with("c03.") || twin.starts_with("c04.") {
         c02::search(twin, case, seed)
+    } else if twin.starts_with("c07.") {
+        c07::search(twin, case, seed)
     } else if twin.starts_with("c19.") {
         c19::search(twin, case, seed)
     } else {
@@ -85,6 +88,8 @@ fn replay(twin: &str, input: &Value) -> Value {
         c01::replay(twin, input)
     } else if twin.starts_with("c02.") || twin.starts_with("c03.") || twin.starts_with("c04.") {
         c02::replay(twin, input)
+    } else if twin.starts_with("c07.") {
+        c07::replay(twin, input)
     } else if twin.starts_with("c19.") {
         c19::replay(twin, input)
     } else {
@@ -97,6 +102,8 @@ fn sweep(twin: &str, seed: u64) -> Value {
         c01::sweep(twin, seed)
     } else if twin.starts_with("c02.") || twin.starts_with("c03.") || twin.starts_with("c04.") {
         c02::sweep(twin, seed)
+    } else if twin.starts_with("c07.") {
+        c07::sweep(twin, seed)
     } else if twin.starts_with("c19.") {
         c19::sweep(twin, seed)
     } else {
